@@ -274,7 +274,7 @@ func (c *Check) goroutineRules(prop, rel string, fns []string) {
 			}
 		}
 		// --- R3: slots
-		written := map[*ssa.Alloc][]*ssa.Function{}
+		written := map[*ssa.Alloc][]*ssa.Go{}
 		for _, g := range gos {
 			cl := goClosure(g)
 			if cl == nil {
@@ -298,6 +298,16 @@ func (c *Check) goroutineRules(prop, rel string, fns []string) {
 						for i, q := range cl.Params {
 							if q == bx {
 								writtenParams[i] = true
+								// the argument is the address of a variable of the launching function
+								if i < len(g.Call.Args) {
+									if cell, owner := resolveCell(g.Call.Args[i]); cell != nil && owner == f && loads <= 1 {
+										if gInLoop && !perIteration(cell, g) {
+											bad = "a goroutine started in a loop writes the shared variable " + cell.Comment
+										} else if !containsGo(written[cell], g) {
+											written[cell] = append(written[cell], g)
+										}
+									}
+								}
 							}
 						}
 					case *ssa.FreeVar:
@@ -310,7 +320,9 @@ func (c *Check) goroutineRules(prop, rel string, fns []string) {
 							if gInLoop && !perIteration(cell, g) {
 								bad = "a goroutine started in a loop writes the shared variable " + cell.Comment
 							} else {
-								written[cell] = append(written[cell], cl)
+								if !containsGo(written[cell], g) {
+									written[cell] = append(written[cell], g)
+								}
 								nw++
 							}
 						default:
@@ -347,7 +359,7 @@ func (c *Check) goroutineRules(prop, rel string, fns []string) {
 			}
 		}
 		for cell, fns := range written {
-			if len(dedupFns(fns)) > 1 {
+			if len(fns) > 1 {
 				c.bad(prop+"-R3", "slot:"+name+":"+cell.Comment, p.relFile(cell.Pos()), "variable "+cell.Comment+" is written by more than one goroutine in "+name)
 			}
 		}
@@ -386,6 +398,35 @@ func (c *Check) goroutineRules(prop, rel string, fns []string) {
 				if !instrDominates(wait, ld) {
 					okReads = false
 					c.bad(prop+"-R3", fmt.Sprintf("barrier:%s:%s", name, describeValue(ld.X)), p.relFile(ld.Pos()), "a result written by a goroutine is read in "+name+" at a point not dominated by wg.Wait()")
+				}
+			}
+		}
+		// results handed to a helper that reads them (the harvesting loop split out): the call
+		// is a read of every slot
+		if inLoop {
+			for _, b := range f.Blocks {
+				for _, ins := range b.Instrs {
+					h := helperCallee(f, ins)
+					if h == nil {
+						continue
+					}
+					if _, isGo := ins.(*ssa.Go); isGo {
+						continue
+					}
+					call := ins.(ssa.CallInstruction)
+					for i, a := range call.Common().Args {
+						if _, isParam := a.(*ssa.Parameter); !isParam || i >= len(h.Params) || !readsElementsOf(h, h.Params[i]) {
+							continue
+						}
+						if _, isSlice := a.Type().Underlying().(*types.Slice); !isSlice {
+							continue
+						}
+						nReads++
+						if !instrDominates(wait, ins) {
+							okReads = false
+							c.bad(prop+"-R3", fmt.Sprintf("barrier:%s:%s", name, fnName(h)), p.relFile(ins.Pos()), "the results written by the goroutines are handed to "+fnName(h)+" in "+name+" at a point not dominated by wg.Wait()")
+						}
+					}
 				}
 			}
 		}
@@ -648,10 +689,13 @@ func loopBoundOf(b *ssa.BasicBlock) ssa.Value {
 // collectRules (R4, R5)
 func (c *Check) collectRules() {
 	p := c.P
-	cg := c.anchorFn("C16-R4", "internal/driver", "concurrentGrab")
-	if cg == nil {
+	cgTop := c.anchorFn("C16-R4", "internal/driver", "concurrentGrab")
+	if cgTop == nil {
 		return
 	}
+	// the loop that harvests the results: in concurrentGrab itself, or in a helper it hands
+	// its sources to after the barrier
+	cg := collectionFunction(cgTop)
 	// R4: results appended in index order
 	nApp := 0
 	for _, b := range cg.Blocks {
@@ -725,7 +769,7 @@ func (c *Check) collectRules() {
 		c.undecided("C16-R4", "order", p.relFile(cg.Pos()), "collection of profiles and mapping sources not found in concurrentGrab")
 	}
 	// R5: a source's error never reaches a return value
-	for _, b := range cg.Blocks {
+	for _, b := range cgTop.Blocks {
 		ret, ok := b.Instrs[len(b.Instrs)-1].(*ssa.Return)
 		if !ok {
 			continue
@@ -783,24 +827,41 @@ func (c *Check) collectRules() {
 			pos  token.Pos
 		}
 		var slots []slot
-		for _, an := range gsb.AnonFuncs {
-			for _, b := range an.Blocks {
-				for _, ins := range b.Instrs {
-					st, ok := ins.(*ssa.Store)
-					if !ok {
-						continue
-					}
-					ex, ok := st.Val.(*ssa.Extract)
-					if !ok || !isIntType(ex.Type()) {
-						continue
-					}
-					call, ok := ex.Tuple.(*ssa.Call)
-					if !ok || call.Call.StaticCallee() == nil || call.Call.StaticCallee().Name() != "chunkedGrab" {
-						continue
-					}
-					base, loads := addrBase(st.Addr)
-					if cell, _ := resolveCell(base); cell != nil && loads == 0 {
-						slots = append(slots, slot{cell, fieldPath(st.Addr), st.Pos()})
+		for _, gb := range gsb.Blocks {
+			for _, gi := range gb.Instrs {
+				g, isGo := gi.(*ssa.Go)
+				if !isGo {
+					continue
+				}
+				an := goClosure(g)
+				if an == nil {
+					continue
+				}
+				for _, b := range an.Blocks {
+					for _, ins := range b.Instrs {
+						st, ok := ins.(*ssa.Store)
+						if !ok {
+							continue
+						}
+						ex, ok := st.Val.(*ssa.Extract)
+						if !ok || !isIntType(ex.Type()) {
+							continue
+						}
+						call, ok := ex.Tuple.(*ssa.Call)
+						if !ok || call.Call.StaticCallee() == nil || call.Call.StaticCallee().Name() != "chunkedGrab" {
+							continue
+						}
+						base, loads := addrBase(st.Addr)
+						if _, isPar := base.(*ssa.Parameter); isPar && loads <= 1 {
+							// through a pointer parameter bound to &variable at the go statement
+							if cell := goBodyCell(base, an, g); cell != nil {
+								slots = append(slots, slot{cell, fieldPath(st.Addr), st.Pos()})
+							}
+							continue
+						}
+						if cell, _ := resolveCell(base); cell != nil && loads == 0 {
+							slots = append(slots, slot{cell, fieldPath(st.Addr), st.Pos()})
+						}
 					}
 				}
 			}
@@ -871,6 +932,9 @@ func (c *Check) chunkTiling() {
 		}
 	}
 	if sl == nil {
+		if c.chunkTilingByRemainder(f) {
+			return
+		}
 		c.undecided("C16-R6", "tiling", p.relFile(f.Pos()), "chunkedGrab does not slice its sources parameter")
 		return
 	}
@@ -1024,4 +1088,188 @@ func goBodyCell(v ssa.Value, cl *ssa.Function, g *ssa.Go) *ssa.Alloc {
 	}
 	a, _ := resolveCell(v)
 	return a
+}
+
+func containsGo(gs []*ssa.Go, g *ssa.Go) bool {
+	for _, x := range gs {
+		if x == g {
+			return true
+		}
+	}
+	return false
+}
+
+// collectionFunction: concurrentGrab, or the same-package helper it passes its sources
+// parameter to that appends the sources' profiles (the harvesting loop split out).
+func collectionFunction(cg *ssa.Function) *ssa.Function {
+	appendsProfiles := func(f *ssa.Function) bool {
+		for _, b := range f.Blocks {
+			for _, ins := range b.Instrs {
+				call, ok := ins.(*ssa.Call)
+				if !ok {
+					continue
+				}
+				if bi, ok := call.Call.Value.(*ssa.Builtin); !ok || bi.Name() != "append" || len(call.Call.Args) < 2 {
+					continue
+				}
+				for _, v := range variadicValues(call.Call.Args[1]) {
+					if v != nil && isFieldLoad(v, "driver.profileSource", "p") {
+						return true
+					}
+				}
+			}
+		}
+		return false
+	}
+	if appendsProfiles(cg) {
+		return cg
+	}
+	for _, b := range cg.Blocks {
+		for _, ins := range b.Instrs {
+			h := helperCallee(cg, ins)
+			if h == nil || !appendsProfiles(h) {
+				continue
+			}
+			for _, a := range ins.(ssa.CallInstruction).Common().Args {
+				if _, isParam := a.(*ssa.Parameter); isParam {
+					return h
+				}
+			}
+		}
+	}
+	return cg
+}
+
+// readsElementsOf: function h loads (a field of) an element of its slice parameter par.
+func readsElementsOf(h *ssa.Function, par *ssa.Parameter) bool {
+	for _, b := range h.Blocks {
+		for _, ins := range b.Instrs {
+			ld, ok := ins.(*ssa.UnOp)
+			if !ok || ld.Op != token.MUL {
+				continue
+			}
+			addr := ld.X
+			for {
+				fa, ok := addr.(*ssa.FieldAddr)
+				if !ok {
+					break
+				}
+				addr = fa.X
+			}
+			if ia, ok := addr.(*ssa.IndexAddr); ok && ia.X == ssa.Value(par) {
+				return true
+			}
+		}
+	}
+	return false
+}
+
+// chunkTilingByRemainder: the chunk loop written as "consume the remainder":
+//
+//	for rest := sources; len(rest) > 0; { n := min(K, len(rest)); chunk := rest[:n]; rest = rest[n:]; … }
+//
+// The chunks tile the list when chunk and the new remainder are cut from the same remainder
+// at the same n, n is K capped by len(rest) with K > 0, and the loop runs while len(rest) > 0.
+// Returns false when the function is not of this form (nothing is reported then).
+func (c *Check) chunkTilingByRemainder(f *ssa.Function) bool {
+	p := c.P
+	var chunk *ssa.Slice
+	for _, b := range f.Blocks {
+		for _, ins := range b.Instrs {
+			call, ok := ins.(*ssa.Call)
+			if !ok || call.Call.StaticCallee() == nil || call.Call.StaticCallee().Name() != "concurrentGrab" || len(call.Call.Args) == 0 {
+				continue
+			}
+			if sl, ok := call.Call.Args[0].(*ssa.Slice); ok {
+				chunk = sl
+			}
+		}
+	}
+	if chunk == nil {
+		return false
+	}
+	rest, ok := chunk.X.(*ssa.Phi)
+	if !ok || chunk.Low != nil || chunk.High == nil {
+		return false
+	}
+	// rest = phi[sources, rest[n:]]
+	var next *ssa.Slice
+	fromParam := false
+	for _, e := range rest.Edges {
+		switch x := e.(type) {
+		case *ssa.Parameter:
+			fromParam = true
+		case *ssa.Slice:
+			next = x
+		default:
+			return false
+		}
+	}
+	if !fromParam || next == nil {
+		return false
+	}
+	key := "tiling"
+	n := chunk.High
+	g := newGuardEngine(p)
+	var step int64
+	okStep := false
+	if call, ok := n.(*ssa.Call); ok {
+		if bi, ok := call.Call.Value.(*ssa.Builtin); ok && bi.Name() == "min" {
+			for _, a := range call.Call.Args {
+				if k, ok := constInt(a); ok && k > 0 {
+					step, okStep = k, true
+				}
+			}
+		}
+	}
+	if ph, ok := n.(*ssa.Phi); ok {
+		for _, e := range ph.Edges {
+			if k, ok := constInt(e); ok && k > 0 {
+				step, okStep = k, true
+			}
+		}
+	}
+	switch {
+	case next.X != ssa.Value(rest) || next.High != nil || next.Low != n:
+		c.bad("C16-R6", key, p.relFile(chunk.Pos()), "the chunk and the remaining sources are not cut from the same list at the same position: consecutive chunks overlap or leave a gap at the chunk boundary")
+	case !okStep || !g.leLen(n, rest, 0):
+		c.bad("C16-R6", key, p.relFile(chunk.Pos()), "the chunk length is not a positive constant capped by the number of remaining sources: the last chunk would slice past the end, or the loop would not advance")
+	default:
+		c.ok("C16-R6", key, p.relFile(chunk.Pos()), "chunks rest[:n] tile the source list", fmt.Sprintf("n = min(%d, len(rest)); the remainder continues at rest[n:]", step))
+	}
+	hdr := rest.Block()
+	inLoop := naturalLoop(hdr)
+	bad := ""
+	for b := range inLoop {
+		for _, sc := range b.Succs {
+			if inLoop[sc] || b == hdr {
+				continue
+			}
+			if ret, ok := sc.Instrs[len(sc.Instrs)-1].(*ssa.Return); ok && len(sc.Instrs) <= 2 {
+				if k, isConst := ret.Results[len(ret.Results)-1].(*ssa.Const); !isConst || !k.IsNil() {
+					continue
+				}
+			}
+			bad = p.relFile(b.Instrs[len(b.Instrs)-1].Pos())
+		}
+	}
+	if bad == "" {
+		c.ok("C16-R6", "tiling:exits", p.relFile(f.Pos()), "the chunk loop visits every chunk", "it is left only through its condition or through an error return")
+	} else {
+		c.bad("C16-R6", "tiling:exits", p.relFile(f.Pos()), "the chunk loop can be left early without an error (a break): the remaining chunks are never fetched although their sources may be fine")
+	}
+	okCond := false
+	if iff, ok := hdr.Instrs[len(hdr.Instrs)-1].(*ssa.If); ok {
+		if cmp, ok := iff.Cond.(*ssa.BinOp); ok {
+			if k, isK := constInt(cmp.Y); isK && lenSlice(cmp.X) == ssa.Value(rest) && (cmp.Op == token.GTR && k == 0 || cmp.Op == token.NEQ && k == 0 || cmp.Op == token.GEQ && k == 1) {
+				okCond = true
+			}
+		}
+	}
+	if okCond {
+		c.ok("C16-R6", "tiling:cond", p.relFile(f.Pos()), "chunk loop runs while sources remain", "loop condition len(rest) > 0")
+	} else {
+		c.bad("C16-R6", "tiling:cond", p.relFile(f.Pos()), "chunk loop condition is not \"sources remain\": the last partial chunk could be skipped")
+	}
+	return true
 }
